@@ -144,28 +144,19 @@ func splitAuthority(a string) (userinfo, host, port string, hasPort bool) {
 	return userinfo, a, "", false
 }
 
-// splitURI splits an absolute URI textually (RFC 3986 appendix B).
-func splitURI(u string) (scheme, authority, path, query string, hasQuery bool, ok bool) {
-	i := strings.Index(u, "://")
-	if i <= 0 {
+// splitURI splits an absolute URI the way a Go client does: http.NewRequest parses the text
+// with url.Parse and sends Host, EscapedPath and RawQuery on the wire, so those components
+// (not the raw text) identify the resource that is requested.
+func splitURI(text string) (scheme, authority, path, query string, hasQuery bool, ok bool) {
+	u, err := url.Parse(text)
+	if err != nil || u.Opaque != "" || u.Host == "" || u.Scheme == "" {
 		return "", "", "", "", false, false
 	}
-	scheme = u[:i]
-	rest := u[i+3:]
-	if j := strings.IndexByte(rest, '#'); j >= 0 {
-		rest = rest[:j]
+	authority = u.Host
+	if u.User != nil {
+		authority = u.User.String() + "@" + authority
 	}
-	if j := strings.IndexByte(rest, '?'); j >= 0 {
-		query = rest[j+1:]
-		hasQuery = true
-		rest = rest[:j]
-	}
-	if j := strings.IndexByte(rest, '/'); j >= 0 {
-		authority, path = rest[:j], rest[j:]
-	} else {
-		authority = rest
-	}
-	return scheme, authority, path, query, hasQuery, true
+	return u.Scheme, authority, u.EscapedPath(), u.RawQuery, u.RawQuery != "" || u.ForceQuery, true
 }
 
 // NF computes the strict or loose normal form of an absolute http(s) URI given as text.
@@ -374,4 +365,25 @@ func SurelySame(a, b []string) bool {
 		}
 	}
 	return true
+}
+
+// Components returns the loose-normalised components of a URI (for classification only).
+func Components(u string) (scheme, authority, path, query string) {
+	nf, ok := NF(u, true)
+	if !ok {
+		return "", "", "", ""
+	}
+	i := strings.Index(nf, "://")
+	scheme = nf[:i]
+	rest := nf[i+3:]
+	if j := strings.IndexByte(rest, '?'); j >= 0 {
+		query = rest[j+1:]
+		rest = rest[:j]
+	}
+	if j := strings.IndexByte(rest, '/'); j >= 0 {
+		authority, path = rest[:j], rest[j:]
+	} else {
+		authority = rest
+	}
+	return
 }
